@@ -291,7 +291,7 @@ class AlignmentCollector:
 
     def process_intergenic(self, alignment_storage, region):
         assignment_storage = []
-        if self.illumina_bam is not None:
+        if self.illumina_bam is not None and self.params.splice_correction_strategy != "none":
             corrector = IlluminaExonCorrector(self.chr_id, region[0], region[1], self.illumina_bam)
         else:
             corrector = VoidExonCorrector()
